@@ -8,13 +8,11 @@ ID = "C18"
 PROPS_FILE = "Props/C18.v"
 TRUSTED = [
     "CPython 3.12 argument binding is the reference semantics; the model's `bind` is compared with it on every generated call (the undecorated function records what it was bound to)",
-    "boltons.funcutils.wraps (external): modelled as demote/forward from its source, tied by the correspondence (outer signature, outcomes); __name__/__doc__/inspect.signature preservation is checked on every generated function, no theorem claimed",
+    "inspect.Signature.bind/apply_defaults (stdlib): modelled as `sigbind` (= bind except its one deviation), tied by the correspondence; functools.wraps metadata preservation (__name__, __doc__, inspect.signature) is checked on every generated function, no theorem claimed",
     "str(e), type(e).__module__/__name__ of the generated exception objects",
 ]
 ASSUMPTIONS = [
-    "signatures are what `def` accepts (wf_sig): kinds in order, at most one *args/**kw, defaults contiguous, distinct names",
-    "no keyword argument names a positional-only parameter (otherwise known findings F3b/F3c)",
-    "no parameter is called '_call' (otherwise known finding F3e)",
+    "no keyword argument names a positional-only parameter that has a default, is not filled positionally, while **kwargs exists and the call is otherwise valid (known finding F3f: inspect.Signature.bind rejects such a call)",
     "the function body logs nothing itself; the exception-extractor registry is empty (C03 covers it)",
 ]
 RULE = ("calls: signatures with all five parameter kinds, defaults and names from a pool containing eliot's own keyword/field names; "
@@ -31,7 +29,7 @@ RESERVED = ["action_status", "timestamp", "task_uuid", "action_type", "task_leve
 POOL = (["logger", "action_type", "_serializers", "self", "fields", "task_id", "result", "exception", "reason", "x", "y"] * 4
         + ["task_uuid", "task_level", "timestamp", "action_status", "args", "kwargs", "message_type", "z",
            "wrapped_function", "callargs", "ctx", "include_args"] * 2)
-CALL_RATE = 0.006      # how often one parameter is renamed `_call` (known finding F3e): a handful per run
+CALL_RATE = 0.006      # how often one parameter is renamed `_call` (regression for the repaired F3e)
 KINDS = {"posonly": "KPosOnly", "normal": "KNormal", "varargs": "KVarArgs", "kwonly": "KKwOnly", "varkw": "KVarKw"}
 KIND_REV = {v: k for k, v in KINDS.items()}
 EXC = [("builtins", "ValueError"), ("builtins", "KeyError"), ("builtins", "TypeError"), ("props.C18", "AppError"),
@@ -96,7 +94,7 @@ def gen_call(rng, sig, implicit_first):
         return nextv[0]
     k = rng.choice([len(posp), n_po, rng.randrange(0, len(posp) + 1)])
     k = max(k, min(n_po, len(posp))) if rng.random() < 0.8 else k
-    by_kw_posonly = n_po > 0 and rng.random() < 0.06
+    by_kw_posonly = n_po > 0 and rng.random() < 0.09
     if by_kw_posonly:
         k = rng.randrange(0, n_po)                          # a positional-only parameter left to a keyword
     pos = [v() for _ in range(k)]
@@ -106,7 +104,7 @@ def gen_call(rng, sig, implicit_first):
         pos += [v() for _ in range(rng.choice([1, 2]))]
     kw = []
     for p in posp[k:]:
-        if (p[1] == "normal" or by_kw_posonly) and (p[2] is None or rng.random() < 0.5):
+        if (p[1] == "normal" and (p[2] is None or rng.random() < 0.5)) or (p[1] == "posonly" and by_kw_posonly):
             kw.append([p[0], v()])
     for p in params:
         if p[1] == "kwonly" and (p[2] is None or rng.random() < 0.5):
@@ -184,7 +182,10 @@ def gen_body(rng, sig, pos):
 
 
 CORPUS = [
-    # the witnesses of the known findings and of the repaired F3
+    # the witness of the known finding F3f, then those of the repaired F3/F3b/F3c/F3d/F3e
+    {"sig": [["x", "posonly", 101], ["kwargs", "varkw", None]], "how": "function", "pos": [], "kw": [["x", 2]],
+     "opts": {"action_type": None, "include_args": None, "include_result": True, "explicit": False},
+     "body": ["ret", 500], "nested": None},
     {"sig": [["x", "posonly", None], ["kwargs", "varkw", None]], "how": "function", "pos": [1], "kw": [["x", 2]],
      "opts": {"action_type": None, "include_args": None, "include_result": True, "explicit": False},
      "body": ["ret", 500], "nested": None},
@@ -417,7 +418,7 @@ def impl_calls(case):
         "module": [getattr(w, "__module__", None), orig.__module__],
         "sig_equal": inspect.signature(w) == inspect.signature(orig),
         "sig": str(inspect.signature(w)),
-        "outer_sig": shape(inspect.signature(w, follow_wrapped=False)),
+        "wrapped_is_orig": getattr(w, "__wrapped__", None) is orig,
     }
     return obs
 
@@ -457,8 +458,7 @@ def model_calls(case):
     lvl = level_of(case)
     parent = Some([Pos(k) for k in lvl]) if lvl is not None else None
     return ("let s := %s in let f := mkFn s %s %s %s in let o := mkOpts %s %s %s in let c := mkCall %s %s in "
-            "(wf_sig s, decorate_ok f o, map (fun p => (p_name p, p_kind p, has_default p)) (demote s), "
-            "call_fn f c, bind s c, wrapper f o %s c)" % (
+            "(wf_sig s, decorate_ok f o, call_fn f c, bind s c, wrapper f o %s c)" % (
                 to_coq(_params(case)), to_coq(Str(MODULE)), to_coq(Str(qualname(case))), b,
                 to_coq(at), to_coq(inc), to_coq(bool(o["include_result"])),
                 to_coq([Z(i) for i in model_pos(case)]), to_coq([(Pos(NUM[k]), Z(i)) for k, i in case["kw"]]),
@@ -516,7 +516,7 @@ def _fval(v):
 
 
 def model_obs_calls(case, parsed):
-    wf, dec_ok, outer, plain, bound, wr = flat(parsed, 6)
+    wf, dec_ok, plain, bound, wr = flat(parsed, 5)
     if not wf:
         return {"model": "signature not well-formed"}
     if not dec_ok:
@@ -526,10 +526,7 @@ def model_obs_calls(case, parsed):
            "plain_out": _outcome(plain),
            "plain_rec": [sorted([[_name(k), _bval(b)] for k, b in bound[1]])] if bound != "TypeErr" else [],
            "dec_out": _outcome(out),
-           "msgs": [sorted([[_name(k), _fval(v)] for k, v in m], key=lambda kv: kv[0]) for m in msgs],
-           "outer_sig": [[_name(n), {"KPosOnly": "POSITIONAL_ONLY", "KNormal": "POSITIONAL_OR_KEYWORD",
-                                     "KVarArgs": "VAR_POSITIONAL", "KKwOnly": "KEYWORD_ONLY",
-                                     "KVarKw": "VAR_KEYWORD"}[k], d] for (n, k), d in outer]}
+           "msgs": [sorted([[_name(k), _fval(v)] for k, v in m], key=lambda kv: kv[0]) for m in msgs]}
     return res
 
 
@@ -537,7 +534,7 @@ def project_calls(case, obs):
     if obs.get("decoration") != "ok":
         return {"decoration": obs.get("decoration")}
     return {"decoration": "ok", "plain_out": obs["plain"]["out"], "plain_rec": obs["plain"]["rec"],
-            "dec_out": obs["dec"]["out"], "msgs": obs["msgs"], "outer_sig": obs["meta"]["outer_sig"]}
+            "dec_out": obs["dec"]["out"], "msgs": obs["msgs"]}
 
 
 # ---------------------------------------------------------------- executable statement (from the property text)
@@ -617,17 +614,20 @@ def kw_names_posonly(case):
     return [k for k, _ in case["kw"] if k in po]
 
 
+def unfilled_posonly_default_kw(case):
+    """a keyword names a positional-only parameter that has a default and is not filled positionally"""
+    posp = [p for p in case["sig"] if p[1] in ("posonly", "normal")]
+    kws = [k for k, _ in case["kw"]]
+    return [p[0] for p in posp[len(model_pos(case)):] if p[1] == "posonly" and p[2] is not None and p[0] in kws]
+
+
 def known_calls(case, obs, failure):
     names = [p[0] for p in case["sig"]]
     inc = case["opts"]["include_args"]
     if inc is not None and not set(inc) <= set(names):
         return None
-    if "_call" in names:
-        return "F3e-param-named-_call"
-    if kw_names_posonly(case):
-        if any(p[1] == "varkw" for p in case["sig"]) and obs.get("plain", {}).get("out", ["TypeError"])[0] != "TypeError":
-            return "F3b-posonly-kw-clash"
-        return "F3c-posonly-by-keyword-accepted"
+    if unfilled_posonly_default_kw(case) and any(p[1] == "varkw" for p in case["sig"]):
+        return "F3f-posonly-default-kw-clash"
     return None
 
 
@@ -673,6 +673,8 @@ def describe_calls(case):
         d.append("action_type given")
     if kw_names_posonly(case):
         d.append("keyword-names-posonly")
+    if unfilled_posonly_default_kw(case):
+        d.append("keyword-names-unfilled-posonly-with-default")
     return d
 
 
@@ -712,12 +714,12 @@ FAMILIES = [
            shrink=shrink_calls, describe=describe_calls, shard=150, coq_shard=120),
 ]
 
-LEVEL_TEXT = ("Coq theorems about the executable model of log_call (Python's binding rule, the boltons-generated outer function, "
-              "getcallargs, the logged start/end messages): same outcome as the undecorated call and faithful argument log for every "
-              "well-formed signature, call, option set and body under the stated guards; refutation witnesses for the guards. Tied to "
-              "/repo by running generated functions decorated and undecorated and comparing outcomes, recorded bindings, messages and "
-              "the outer signature with the model evaluated in Coq, plus the property's executable statement on the real output.")
+LEVEL_TEXT = ("Coq theorems about the executable model of log_call (Python's binding rule, Signature.bind, the logged start/end "
+              "messages): same outcome as the undecorated call and faithful argument log for every signature, parameter naming, call, "
+              "option set and body under one guard (Signature.bind's deviation from Python's rule), with a refutation witness for the "
+              "guard and for the pre-repair wrapper. Tied to /repo by running generated functions decorated and undecorated and "
+              "comparing outcomes, recorded bindings and messages with the model evaluated in Coq, plus the property's executable "
+              "statement on the real output.")
 LEVEL_NOTE = ("Trusted: Coq kernel; hand-written model (Model/LogCall.v) tied by correspondence; CPython's binding as reference. "
-              "The outer function generated by boltons.funcutils.wraps (signature without '/', forwarding of its locals through the "
-              "global _call) and inspect.getcallargs are MODELLED from their source and tied by the correspondence, not verified; "
-              "boltons' metadata preservation (__name__, __doc__, inspect.signature) is checked per case only.")
+              "inspect.Signature.bind is MODELLED (sigbind) and tied by the correspondence, not verified; functools.wraps' metadata "
+              "preservation (__name__, __doc__, inspect.signature) is checked per case only.")
